@@ -6,6 +6,10 @@ Property theorems only.  Model: `Operon/Model/Atp.lean` (hand-written, tied to
 `operon_ai/state/metabolism.py :: ATP_Store` by the differential correspondence of `harness/vf/props/c04.py`).
 
 Every statement quantifies over
+* every behaviour of the `on_state_change` observers: `obs : Obs` is what a store's observer does when
+  `_update_state` calls it (return, or raise exception `k`); along histories `adv k j` is the behaviour of
+  store `j`'s observer during step `k` — an arbitrary, stateful, possibly raising observer per store.  A raising
+  observer makes the call raise AFTER the mutation; every ledger clause below holds regardless,
 * every metabolic-state classifier `cls` (the float computation of `_update_state` is a parameter: no clause
   of the property depends on which state the thresholds pick),
 * every store / colony of stores — all budgets, capacities (zero included), debt limits, interest rates,
@@ -19,71 +23,104 @@ Balances are `Int` in the model (Python ints), so non-negativity is proved, not 
 -/
 namespace Operon.Atp
 
-variable (cls : Classifier)
+variable (cls : Classifier) (obs : Obs) (obsN : Nat → Obs) (adv : Nat → Nat → Obs) (k : Nat)
 
 /-! ### exact charging, free failures -/
 
-/-- `consume` always returns a bool — it never raises, whatever the store (zero capacities, debt, any state). -/
+/-- `consume` returns a bool, or raises exactly what the observer raised — whatever the store (zero
+    capacities, debt, any state). -/
+theorem c04_consume_returns_bool_or_observer_raised (s : Store) (cost : Nat) (cur : Cur) (d : Bool) (p : Nat) :
+    (∃ b, (consumeO cls obs s cost cur d p).2.1 = .ok b) ∨
+    (∃ k st, (consumeO cls obs s cost cur d p).2.1 = .error (.observer k) ∧ obs st = some k) := by
+  have h := (consumeO_spec cls obs s cost cur d p).2
+  cases hb : (consumeO cls obs s cost cur d p).2.2.success
+  · simp only [hb, Bool.false_eq_true, reduceIte] at h; exact Or.inl ⟨_, h⟩
+  · simp only [hb, reduceIte] at h
+    rcases h with h | h
+    · exact Or.inl ⟨_, h⟩
+    · exact Or.inr h
+
+/-- With no observer installed (or one that never raises) `consume` always returns a bool. -/
 theorem c04_consume_returns_bool (s : Store) (cost : Nat) (cur : Cur) (d : Bool) (p : Nat) :
     ∃ b, (consume cls s cost cur d p).2.1 = .ok b :=
   ⟨_, (consume_spec cls s cost cur d p).2⟩
 
 /-- A spend that reports success removes exactly its cost from the store's net worth (balances minus debt):
-    direct deduction, NADH top-up, debt, and top-up followed by debt alike, in every currency. -/
+    direct deduction, NADH top-up, debt, and top-up followed by debt alike, in every currency, with any
+    observer installed. -/
 theorem c04_success_charges_exactly (s : Store) (cost : Nat) (cur : Cur) (d : Bool) (p : Nat)
-    (h : (consume cls s cost cur d p).2.1 = .ok true) :
-    (consume cls s cost cur d p).1.worth = s.worth - cost := by
-  obtain ⟨hs, hr⟩ := consume_spec cls s cost cur d p
-  rw [hr] at h
-  have hb : (consume cls s cost cur d p).2.2.success = true := by injection h
-  have := hs.worth; simp only [hb, reduceIte] at this; exact this
+    (h : (consumeO cls obs s cost cur d p).2.1 = .ok true) :
+    (consumeO cls obs s cost cur d p).1.worth = s.worth - cost := by
+  have hb := consumeO_success_of_ok_true cls obs h
+  have := (consumeO_spec cls obs s cost cur d p).1.worth
+  simp only [hb, reduceIte] at this; exact this
 
 /-- A spend that reports failure removes nothing and creates nothing: net worth, debt, the sum of the
     balances, the GTP balance and the audit counter are unchanged (a refused ATP spend may still have moved
     NADH into ATP — that is a conversion inside the store, not a charge). -/
 theorem c04_failure_is_free (s : Store) (cost : Nat) (cur : Cur) (d : Bool) (p : Nat)
-    (h : (consume cls s cost cur d p).2.1 = .ok false) :
-    (consume cls s cost cur d p).1.worth = s.worth ∧ (consume cls s cost cur d p).1.debt = s.debt ∧
-    (consume cls s cost cur d p).1.total = s.total ∧ (consume cls s cost cur d p).1.gtp = s.gtp ∧
-    (consume cls s cost cur d p).1.consumed = s.consumed := by
-  obtain ⟨hs, hr⟩ := consume_spec cls s cost cur d p
-  rw [hr] at h
-  have hb : (consume cls s cost cur d p).2.2.success = false := by injection h
+    (h : (consumeO cls obs s cost cur d p).2.1 = .ok false) :
+    (consumeO cls obs s cost cur d p).1.worth = s.worth ∧ (consumeO cls obs s cost cur d p).1.debt = s.debt ∧
+    (consumeO cls obs s cost cur d p).1.total = s.total ∧ (consumeO cls obs s cost cur d p).1.gtp = s.gtp ∧
+    (consumeO cls obs s cost cur d p).1.consumed = s.consumed := by
+  obtain ⟨hs, hr⟩ := consumeO_spec cls obs s cost cur d p
+  have hb : (consumeO cls obs s cost cur d p).2.2.success = false := by
+    cases hb : (consumeO cls obs s cost cur d p).2.2.success
+    · rfl
+    · simp only [hb, reduceIte] at hr
+      rcases hr with hr | ⟨_, _, hr, -⟩ <;> rw [hr] at h <;> cases h
   have h1 := hs.worth; have h2 := hs.consumed; have h3 := hs.free hb
   simp only [hb, Bool.false_eq_true, reduceIte] at h1 h2
   exact ⟨by omega, h3.1, h3.2.1, h3.2.2, by omega⟩
 
 /-- The audit counter `total_consumed` grows by exactly the cost of every successful spend. -/
 theorem c04_audit_counter_exact (s : Store) (cost : Nat) (cur : Cur) (d : Bool) (p : Nat)
-    (h : (consume cls s cost cur d p).2.1 = .ok true) :
-    (consume cls s cost cur d p).1.consumed = s.consumed + cost := by
-  obtain ⟨hs, hr⟩ := consume_spec cls s cost cur d p
-  rw [hr] at h
-  have hb : (consume cls s cost cur d p).2.2.success = true := by injection h
-  have := hs.consumed; simp only [hb, reduceIte] at this; exact this
+    (h : (consumeO cls obs s cost cur d p).2.1 = .ok true) :
+    (consumeO cls obs s cost cur d p).1.consumed = s.consumed + cost := by
+  have hb := consumeO_success_of_ok_true cls obs h
+  have := (consumeO_spec cls obs s cost cur d p).1.consumed
+  simp only [hb, reduceIte] at this; exact this
+
+/-- A spend that the observer interrupted (the call raised) had already gone through: the exception is the
+    observer's, and the store was charged exactly the cost (net worth and audit counter) — never more, and never
+    a charge without the spend having succeeded. -/
+theorem c04_interrupted_spend_charged_exactly (s : Store) (cost : Nat) (cur : Cur) (d : Bool) (p : Nat) (e : Exc)
+    (h : (consumeO cls obs s cost cur d p).2.1 = .error e) :
+    (∃ k st, e = .observer k ∧ obs st = some k) ∧
+    (consumeO cls obs s cost cur d p).1.worth = s.worth - cost ∧
+    (consumeO cls obs s cost cur d p).1.consumed = s.consumed + cost := by
+  obtain ⟨hs, hr⟩ := consumeO_spec cls obs s cost cur d p
+  cases hb : (consumeO cls obs s cost cur d p).2.2.success
+  · simp only [hb, Bool.false_eq_true, reduceIte] at hr; rw [hr] at h; cases h
+  · simp only [hb, reduceIte] at hr
+    have h1 := hs.worth; have h2 := hs.consumed
+    simp only [hb, reduceIte] at h1 h2
+    rcases hr with hr | ⟨k', st, hr, hk⟩
+    · rw [hr] at h; cases h
+    · rw [hr] at h; cases h; exact ⟨⟨k', st, rfl, hk⟩, h1, h2⟩
 
 /-! ### no overdraft -/
 
 /-- Every balance, the debt (and every capacity) of every store stays `>= 0` along every history.  (A history
     is any list, so this covers every intermediate state as well.) -/
-theorem c04_balances_nonneg (sys : Sys) (ops : List Op) (wf : Sys.WF sys) : Sys.WF (run cls sys ops).1 :=
-  run_wf cls ops sys wf
+theorem c04_balances_nonneg (sys : Sys) (ops : List Op) (wf : Sys.WF sys) : Sys.WF (run cls adv k sys ops).1 :=
+  run_wf cls adv ops k sys wf
 
 /-- Debt stays within its limit, interest aside: after any history the debt of store `i` is at most its
     (unchanged) debt limit plus the interest that `apply_debt_interest` charged to it along the way. -/
 theorem c04_debt_within_limit (sys : Sys) (ops : List Op) (wf : Sys.WF sys) (i : Nat) (s : Store)
     (h : sys[i]? = some s) (hd : s.debt ≤ s.maxDebt) :
-    ∃ s', (run cls sys ops).1[i]? = some s' ∧ s'.maxDebt = s.maxDebt ∧
-      s'.debt ≤ s.maxDebt + accrued cls i sys ops := by
-  obtain ⟨s', h1, h2, h3, -⟩ := run_debt cls i ops sys s 0 wf h (Int.le_refl 0) (by omega)
+    ∃ s', (run cls adv k sys ops).1[i]? = some s' ∧ s'.maxDebt = s.maxDebt ∧
+      s'.debt ≤ s.maxDebt + accrued cls adv i k sys ops := by
+  obtain ⟨s', h1, h2, h3, -⟩ := run_debt cls adv i ops k sys s 0 wf h (Int.le_refl 0) (by omega)
   exact ⟨s', h1, h2, by omega⟩
 
 /-- … and without `apply_debt_interest` in the history the debt never exceeds the limit. -/
 theorem c04_debt_within_limit_no_interest (sys : Sys) (ops : List Op) (wf : Sys.WF sys) (i : Nat) (s : Store)
     (h : sys[i]? = some s) (hd : s.debt ≤ s.maxDebt) (hno : ∀ op ∈ ops, ∀ j, op ≠ .interest j) :
-    ∃ s', (run cls sys ops).1[i]? = some s' ∧ s'.debt ≤ s'.maxDebt := by
-  obtain ⟨s', h1, h2, h3⟩ := c04_debt_within_limit cls sys ops wf i s h hd
-  rw [accrued_eq_zero cls i ops sys hno] at h3
+    ∃ s', (run cls adv k sys ops).1[i]? = some s' ∧ s'.debt ≤ s'.maxDebt := by
+  obtain ⟨s', h1, h2, h3⟩ := c04_debt_within_limit cls adv k sys ops wf i s h hd
+  rw [accrued_eq_zero cls adv i ops k sys hno] at h3
   exact ⟨s', h1, by omega⟩
 
 /-! ### regeneration, transfers -/
@@ -92,41 +129,43 @@ theorem c04_debt_within_limit_no_interest (sys : Sys) (ops : List Op) (wf : Sys.
     balance above its capacity: afterwards every balance is at most the larger of its capacity and its
     previous value — the currency regenerated and the other two alike. -/
 theorem c04_regenerate_never_above_capacity (s : Store) (n : Nat) (cur c : Cur) :
-    (regenerate cls s n cur).1.bal c ≤ max (s.cap c) (s.bal c) ∧ (regenerate cls s n cur).1.cap c = s.cap c := by
-  have h := (regenerate_spec cls s n cur).1
+    (regenerateO cls obs s n cur).1.bal c ≤ max (s.cap c) (s.bal c) ∧ (regenerateO cls obs s n cur).1.cap c = s.cap c := by
+  have h := (regenerateO_spec cls obs s n cur).1
   refine ⟨h.capped c, ?_⟩
   obtain ⟨h1, h2, h3, -⟩ := h.cfg
   cases c <;> simp only [Store.cap] <;> assumption
 
 /-- In particular a balance within its capacity stays within it. -/
 theorem c04_regenerate_within_capacity (s : Store) (n : Nat) (cur c : Cur) (h : s.bal c ≤ s.cap c) :
-    (regenerate cls s n cur).1.bal c ≤ (regenerate cls s n cur).1.cap c := by
-  obtain ⟨h1, h2⟩ := c04_regenerate_never_above_capacity cls s n cur c
+    (regenerateO cls obs s n cur).1.bal c ≤ (regenerateO cls obs s n cur).1.cap c := by
+  obtain ⟨h1, h2⟩ := c04_regenerate_never_above_capacity cls obs s n cur c
   omega
 
 /-- Along every history GTP and NADH stay within their capacities (no operation at all lifts them above).
     The same is NOT claimed for ATP, and would be false: a refused ATP spend keeps the NADH it already converted,
     which can leave ATP above `max_atp` (see the last example of this file) — by `consume`, not by regeneration. -/
 theorem c04_gtp_nadh_stay_within_capacity (sys : Sys) (ops : List Op) (h : Sys.Within sys) :
-    Sys.Within (run cls sys ops).1 :=
-  run_within cls ops sys h
+    Sys.Within (run cls adv k sys ops).1 :=
+  run_within cls adv ops k sys h
 
-/-- Regeneration adds at most the regenerated amount to the net worth and never raises. -/
+/-- Regeneration adds at most the regenerated amount to the net worth, and raises only what the observer raised. -/
 theorem c04_regenerate_adds_at_most (s : Store) (n : Nat) (cur : Cur) :
-    (regenerate cls s n cur).1.worth ≤ s.worth + n ∧ (regenerate cls s n cur).2 = .ok () :=
-  ⟨(regenerate_spec cls s n cur).1.worth, (regenerate_spec cls s n cur).2⟩
+    (regenerateO cls obs s n cur).1.worth ≤ s.worth + n ∧
+    ((regenerateO cls obs s n cur).2 = .ok () ∨
+     ∃ k st, (regenerateO cls obs s n cur).2 = .error (.observer k) ∧ obs st = some k) :=
+  ⟨(regenerateO_spec cls obs s n cur).1.worth, (regenerateO_spec cls obs s n cur).2⟩
 
 /-- Transfers never create energy: the combined net worth of the colony does not increase, for any two
     stores (a store transferring to itself included), any amount, any currency, any outcome. -/
 theorem c04_transfer_never_creates (sys : Sys) (i j n : Nat) (cur : Cur) :
-    sumOf Store.worth (step cls sys (.transfer i j n cur)).1 ≤ sumOf Store.worth sys := by
-  have := step_pot pot_worth cls sys (.transfer i j n cur) (fun _ h => nomatch h) rfl
+    sumOf Store.worth (step cls obsN sys (.transfer i j n cur)).1 ≤ sumOf Store.worth sys := by
+  have := step_pot pot_worth cls obsN sys (.transfer i j n cur) (fun _ h => nomatch h) rfl
   simp only [paid] at this; omega
 
 /-- A transfer that reports failure leaves every store of the colony exactly as it was. -/
 theorem c04_failed_transfer_is_free (sys : Sys) (i j n : Nat) (cur : Cur)
-    (h : (step cls sys (.transfer i j n cur)).2 = .bool false) : (step cls sys (.transfer i j n cur)).1 = sys :=
-  step_transfer_refused cls sys i j n cur h
+    (h : (step cls obsN sys (.transfer i j n cur)).2 = .bool false) : (step cls obsN sys (.transfer i j n cur)).1 = sys :=
+  step_transfer_refused cls obsN sys i j n cur h
 
 /-- `convert_nadh_to_atp` moves energy between NADH and ATP inside the store: net worth, debt and the sum of
     the balances are unchanged (whatever it returns, including the non-positive "nothing converted" values). -/
@@ -138,8 +177,8 @@ theorem c04_convert_keeps_worth (s : Store) (n : Nat) :
 /-- More generally only `regenerate` and `reset` bring energy in: every other call leaves the colony's net
     worth where it was or lower, and a successful `consume` lowers it by exactly its cost. -/
 theorem c04_only_inflow_creates (sys : Sys) (op : Op) (wf : Sys.WF sys) (h : op.inflow = false) :
-    sumOf Store.worth (step cls sys op).1 + paid op (step cls sys op).2 ≤ sumOf Store.worth sys :=
-  step_pot pot_worth cls sys op (fun _ _ => wf) h
+    sumOf Store.worth (step cls obsN sys op).1 + paid op (step cls obsN sys op).2 ≤ sumOf Store.worth sys :=
+  step_pot pot_worth cls obsN sys op (fun _ _ => wf) h
 
 /-! ### bounded total spend -/
 
@@ -149,22 +188,22 @@ theorem c04_only_inflow_creates (sys : Sys) (op : Op) (wf : Sys.WF sys) (h : op.
     interest are allowed in the history. -/
 theorem c04_total_spend_bounded (sys : Sys) (ops : List Op) (wf : Sys.WF sys)
     (h : ∀ op ∈ ops, op.inflow = false) :
-    spentOf ops (run cls sys ops).2 ≤ sumOf Store.room sys := by
-  have h1 := run_pot pot_room cls ops sys wf h
-  have h2 := sumOf_nonneg Store.room room_nonneg _ (run_wf cls ops sys wf)
+    spentOf ops (run cls adv k sys ops).2 ≤ sumOf Store.room sys := by
+  have h1 := run_pot pot_room cls adv ops k sys wf h
+  have h2 := sumOf_nonneg Store.room room_nonneg _ (run_wf cls adv ops k sys wf)
   omega
 
 /-- The same for one freshly constructed store, in the words of the property: total successful spend is at
     most initial balances plus the debt limit. -/
 theorem c04_total_spend_bounded_fresh (b g n md rn rd : Nat) (ops : List Op)
     (h : ∀ op ∈ ops, op.inflow = false) :
-    spentOf ops (run cls [Store.fresh b g n md rn rd] ops).2 ≤ b + g + n + md := by
+    spentOf ops (run cls adv k [Store.fresh b g n md rn rd] ops).2 ≤ b + g + n + md := by
   have wf : Sys.WF [Store.fresh b g n md rn rd] := by
     intro i s hs
     cases i with
     | zero => simp at hs; subst hs; exact fresh_wf b g n md rn rd
     | succ k => simp at hs
-  have := c04_total_spend_bounded cls _ ops wf h
+  have := c04_total_spend_bounded cls adv k _ ops wf h
   simp only [sumOf, List.map, List.sum_cons, List.sum_nil, room_fresh] at this
   omega
 
@@ -173,49 +212,65 @@ theorem c04_total_spend_bounded_fresh (b g n md rn rd : Nat) (ops : List Op)
 theorem c04_positive_cost_successes_bounded (sys : Sys) (ops : List Op) (wf : Sys.WF sys)
     (h : ∀ op ∈ ops, op.inflow = false)
     (hpos : ∀ op ∈ ops, ∀ i cost cur d p, op = .consume i cost cur d p → 1 ≤ cost) :
-    (successes ops (run cls sys ops).2 : Int) ≤ sumOf Store.room sys :=
-  Int.le_trans (successes_le_spent ops _ hpos) (c04_total_spend_bounded cls sys ops wf h)
+    (successes ops (run cls adv k sys ops).2 : Int) ≤ sumOf Store.room sys :=
+  Int.le_trans (successes_le_spent ops _ hpos) (c04_total_spend_bounded cls adv k sys ops wf h)
 
 /-- … hence a history in which every `consume` call succeeded contains at most `room` of them: the
     `room + 1`-st paying call of any loop is refused, whatever else (without inflow) the loop does. -/
 theorem c04_positive_cost_loop_halts (sys : Sys) (ops : List Op) (wf : Sys.WF sys)
     (h : ∀ op ∈ ops, op.inflow = false)
     (hpos : ∀ op ∈ ops, ∀ i cost cur d p, op = .consume i cost cur d p → 1 ≤ cost)
-    (hall : AllConsumesSucceed ops (run cls sys ops).2) :
+    (hall : AllConsumesSucceed ops (run cls adv k sys ops).2) :
     (consumeCalls ops : Int) ≤ sumOf Store.room sys := by
-  have := c04_positive_cost_successes_bounded cls sys ops wf h hpos
+  have := c04_positive_cost_successes_bounded cls adv k sys ops wf h hpos
   rw [successes_eq_calls ops _ hall] at this
   exact this
 
 /-- The loop itself: `while store[i].consume(cost, …): <body>` with `cost ≥ 1` and any body of calls without
     inflow completes at most `room` iterations, and given more fuel than `room` it is left because the spend
-    was refused, not because the fuel ran out — i.e. the loop halts. -/
+    did not report success (refused, or interrupted by a raising observer), not because the fuel ran out — i.e.
+    the loop halts, whatever the observers do. -/
 theorem c04_pay_loop_halts (sys : Sys) (wf : Sys.WF sys) (i cost : Nat) (cur : Cur) (d : Bool) (p : Nat)
     (body : List Op) (hc : 1 ≤ cost) (hb : ∀ op ∈ body, op.inflow = false) (fuel : Nat)
     (hf : sumOf Store.room sys < fuel) :
-    (payLoop cls i cost cur d p body fuel sys).2 = true ∧
-    ((payLoop cls i cost cur d p body fuel sys).1 : Int) ≤ sumOf Store.room sys :=
-  ⟨(payLoop_spec cls i cost cur d p body hc hb fuel sys wf).2 hf,
-   (payLoop_spec cls i cost cur d p body hc hb fuel sys wf).1⟩
+    (payLoop cls adv i cost cur d p body fuel k sys).2 = true ∧
+    ((payLoop cls adv i cost cur d p body fuel k sys).1 : Int) ≤ sumOf Store.room sys :=
+  ⟨(payLoop_spec cls adv i cost cur d p body hc hb fuel k sys wf).2 hf,
+   (payLoop_spec cls adv i cost cur d p body hc hb fuel k sys wf).1⟩
 
-/-! ### no operation raises -/
+/-! ### no operation raises (unless the observer raised) -/
 
-/-- No call raises — for every colony (well formed or not, zero capacities, debt present), every operation,
-    every argument.  The only exception the code could raise on integer arguments is the `ZeroDivisionError`
-    of `_update_state`; both of its divisions are guarded. -/
-theorem c04_no_raise (sys : Sys) (op : Op) (e : Exc) : (step cls sys op).2 ≠ .raised e :=
-  step_no_raise cls sys op e
+/-- If a call raises, the exception is one that the `on_state_change` observer of some store raised during that
+    very call — for every colony (well formed or not, zero capacities, debt present), every operation, every
+    argument.  The only exception the code itself could raise on integer arguments is the `ZeroDivisionError` of
+    `_update_state`; both of its divisions are guarded. -/
+theorem c04_raises_only_what_observer_raised (sys : Sys) (op : Op) (e : Exc)
+    (h : (step cls obsN sys op).2 = .raised e) : ∃ j n st, e = .observer n ∧ obsN j st = some n :=
+  step_raise_only_observer cls obsN sys op e h
 
-/-- … along every history. -/
-theorem c04_no_raise_run (sys : Sys) (ops : List Op) : ∀ r ∈ (run cls sys ops).2, ∀ e, r ≠ .raised e := by
-  induction ops generalizing sys with
+/-- No call raises when no observer raises (in particular when none is installed). -/
+theorem c04_no_raise (sys : Sys) (op : Op) (hobs : ∀ j st, obsN j st = none) (e : Exc) :
+    (step cls obsN sys op).2 ≠ .raised e :=
+  step_no_raise cls obsN sys op hobs e
+
+/-- … along every history: whatever a history raises was raised by an observer at that step. -/
+theorem c04_raises_only_what_observer_raised_run (sys : Sys) (ops : List Op) :
+    ∀ r ∈ (run cls adv k sys ops).2, ∀ e, r = .raised e → ∃ m j n st, e = .observer n ∧ adv m j st = some n := by
+  induction ops generalizing sys k with
   | nil => intro r hr; simp [run] at hr
   | cons op ops ih =>
-    intro r hr e
+    intro r hr e he
     simp only [run, List.mem_cons] at hr
     rcases hr with rfl | hr
-    · exact step_no_raise cls sys op e
-    · exact ih _ r hr e
+    · obtain ⟨j, n, st, h1, h2⟩ := step_raise_only_observer cls (adv k) sys op e he
+      exact ⟨k, j, n, st, h1, h2⟩
+    · exact ih (k + 1) _ r hr e he
+
+/-- … and a history run without observers (`noObs`) never raises. -/
+theorem c04_no_raise_run (sys : Sys) (ops : List Op) : ∀ r ∈ (run cls noObs k sys ops).2, ∀ e, r ≠ .raised e := by
+  intro r hr e he
+  obtain ⟨m, j, n, st, -, h⟩ := c04_raises_only_what_observer_raised_run cls noObs k sys ops r hr e he
+  simp [noObs, Obs.silent] at h
 
 /-! ### Non-vacuity: concrete stores and histories meeting the hypotheses -/
 
@@ -235,7 +290,7 @@ example : (consume cN (Store.fresh 10 0 3 100 1 10) 4 .nadh true 0).2.2 = .debt 
 example : (consume cN (Store.fresh 5 0 3 0 1 10) 10 .atp true 0).2.2 = .refused true ∧
     retBool (consume cN (Store.fresh 5 0 3 0 1 10) 10 .atp true 0).2.1 = .bool false := by decide
 /-- `c04_consume_returns_bool` / `c04_no_raise`: the former ZeroDivisionError case (zero capacity, debt) -/
-example : (step cN [Store.fresh 0 0 0 5 1 10] (.consume 0 3 .atp true 0)).2 = .bool true := by decide
+example : (step cN (noObs 0) [Store.fresh 0 0 0 5 1 10] (.consume 0 3 .atp true 0)).2 = .bool true := by decide
 /-- `Sys.WF`, `debt ≤ maxDebt`, no-inflow and positive-cost hypotheses hold for a fresh two-store colony and
     a history with spends, a transfer, a conversion and interest … -/
 private def sys0 : Sys := [Store.fresh 5 0 3 10 1 2, Store.fresh 0 0 0 5 1 2]
@@ -254,19 +309,19 @@ example : ∀ op ∈ ops0, ∀ i cost cur d p, op = .consume i cost cur d p → 
   rcases h with rfl | rfl | rfl | rfl | rfl | rfl | rfl <;> intro i cost cur d p e <;> cases e <;> decide
 /-- … in which spends succeed, interest accrues (store 1: limit 5, debt 3 + interest 1) and the
     last spend is refused: 7 + 3 + 9 = 19 spent of a room of 5 + 3 + 10 + 5 = 23. -/
-example : (run cN sys0 ops0).2 =
+example : (run cN noObs 0 sys0 ops0).2 =
     [.bool true, .bool true, .bool true, .none, .int 0, .bool true, .bool false] := by decide
-example : accrued cN 1 sys0 ops0 = 1 ∧ ((run cN sys0 ops0).1.map Store.debt) = [9, 4] := by decide
-example : spentOf ops0 (run cN sys0 ops0).2 = 19 ∧ sumOf Store.room sys0 = 23 := by decide
+example : accrued cN noObs 1 0 sys0 ops0 = 1 ∧ ((run cN noObs 0 sys0 ops0).1.map Store.debt) = [9, 4] := by decide
+example : spentOf ops0 (run cN noObs 0 sys0 ops0).2 = 19 ∧ sumOf Store.room sys0 = 23 := by decide
 /-- `AllConsumesSucceed` is satisfiable (a prefix of the history above) and fails once the money is gone -/
-example : AllConsumesSucceed (ops0.take 6) (run cN sys0 (ops0.take 6)).2 := by decide
-example : ¬ AllConsumesSucceed ops0 (run cN sys0 ops0).2 := by decide
+example : AllConsumesSucceed (ops0.take 6) (run cN noObs 0 sys0 (ops0.take 6)).2 := by decide
+example : ¬ AllConsumesSucceed ops0 (run cN noObs 0 sys0 ops0).2 := by decide
 /-- `c04_pay_loop_halts`: paying 4 per round from the colony above (room 23) with a body that converts and charges
     interest stops after 4 rounds, well before the fuel (100) runs out; with too little fuel it is the fuel that ends it -/
-example : payLoop cN 0 4 .atp true 10 [.convert 0 1, .interest 0] 100 sys0 = (4, true) ∧
-    payLoop cN 0 4 .atp true 10 [.convert 0 1, .interest 0] 2 sys0 = (2, false) := by decide
+example : payLoop cN noObs 0 4 .atp true 10 [.convert 0 1, .interest 0] 100 0 sys0 = (4, true) ∧
+    payLoop cN noObs 0 4 .atp true 10 [.convert 0 1, .interest 0] 2 0 sys0 = (2, false) := by decide
 /-- `c04_failed_transfer_is_free`: a refused transfer exists -/
-example : (step cN sys0 (.transfer 1 0 1 .atp)).2 = .bool false := by decide
+example : (step cN (noObs 0) sys0 (.transfer 1 0 1 .atp)).2 = .bool false := by decide
 /-- `c04_gtp_nadh_stay_within_capacity`: `Sys.Within` holds for every constructed colony -/
 example : Sys.Within sys0 := by
   intro i s h
@@ -279,5 +334,22 @@ example : ((regenerate cN { Store.fresh 12 0 0 0 1 10 with atp := 10 } 7 .atp).1
 /-- … while a balance that a refused top-up left above capacity is pulled back, never pushed further). -/
 example : (consume cN (Store.fresh 5 0 3 0 1 10) 10 .atp false 0).1.atp = 8 ∧
     (regenerate cN (consume cN (Store.fresh 5 0 3 0 1 10) 10 .atp false 0).1 1 .atp).1.atp = 5 := by decide
+
+/-- a classifier that changes state (starving as soon as ATP+GTP is empty) and an observer that raises on it -/
+private def cS : Classifier := fun r _ => match r with | some q => if q.num = 0 then .starving else .normal | none => .starving
+private def oRaise : Obs := fun st => if st = .starving then some 7 else none
+/-- `c04_interrupted_spend_charged_exactly` / `c04_raises_only_what_observer_raised`: spending the last 5 ATP turns
+    the store STARVING, the observer raises, the call raises — with the state written and exactly 5 charged -/
+example : retBool (consumeO cS oRaise (Store.fresh 5 0 0 0 1 10) 5 .atp false 0).2.1 = .raised (.observer 7) ∧
+    (consumeO cS oRaise (Store.fresh 5 0 0 0 1 10) 5 .atp false 0).1.atp = 0 ∧
+    (consumeO cS oRaise (Store.fresh 5 0 0 0 1 10) 5 .atp false 0).1.state = .starving ∧
+    (consumeO cS oRaise (Store.fresh 5 0 0 0 1 10) 5 .atp false 0).1.consumed = 5 := by decide
+/-- the observer is not consulted when the state does not change (4 of 5 ATP: still NORMAL) -/
+example : retBool (consumeO cS (fun _ => some 1) (Store.fresh 5 0 0 0 1 10) 4 .atp false 0).2.1 = .bool true := by decide
+/-- a transfer whose deposit is interrupted by the peer's observer raises after the withdrawal: energy is lost in
+    flight, never created (`c04_transfer_never_creates` with a raising observer) -/
+example : (step cS (fun _ => fun st => if st = .normal then some 3 else none)
+      [Store.fresh 5 0 0 0 1 10, { Store.fresh 4 0 0 0 1 10 with atp := 0, state := .starving }]
+      (.transfer 0 1 2 .atp)).2 = .raised (.observer 3) := by decide
 
 end Operon.Atp
